@@ -70,7 +70,11 @@ Definition run_solve_spec (c : json) : option json :=
 (* ---- row oracle: judge reported (state, choice) rows of a simulation ------------------- *)
 Definition on_grid (g : grid) (v : Q) : bool := existsb (fun x => Qeqb x v) (grid_points g).
 
-Definition run_row (m : model) (p : params) (tabs : list (arr val)) (row : json) : option json :=
+Definition grid_index (g : grid) (v : Q) : option nat :=
+  find_index Qeqb v (grid_points g).
+
+Definition run_row (m : model) (p : params) (tabs : list (arr val)) (targets : list string)
+           (row : json) : option json :=
   do t <- jfield_of jnat "t" row ;;
   do st <- jfield_of (jlist_of (jnamed jq)) "states" row ;;
   do ch <- jfield_of (jlist_of (jnamed jq)) "choices" row ;;
@@ -88,7 +92,14 @@ Definition run_row (m : model) (p : params) (tabs : list (arr val)) (row : json)
                                     match weight_row m p e (fst sg) with
                                     | Some r => of_list of_q r | None => JStr "undefined" end])
                   (stoch_states m) in
-  Some (JObj [("feasible", JBool (feasible m p e));
+  let loc := match omap (fun sg => match grid_index (snd sg) (look st (fst sg)) with
+                                     | Some i => Some (fst sg, i) | None => None end) (states m) with
+             | Some ie => match locate m p t ie with Some l => of_list of_nat l | None => JNull end
+             | None => JNull
+             end in
+  let tg := map (fun n => JList [JStr n; match eval_fun (depth m) m p e n with
+                                         | Some v => of_q v | None => JStr "undefined" end]) targets in
+  Some (JObj [("loc", loc); ("targets", JList tg); ("feasible", JBool (feasible m p e));
               ("on_grid", JBool (forallb (fun sg => on_grid (snd sg) (look ch (fst sg))) (choices m)));
               ("U", of_val (vred (objective m p last vnext e)));
               ("Vmax", of_val (vred (value_at m p t last vnext sigma)));
@@ -98,5 +109,6 @@ Definition run_rows (c : json) : option json :=
   do m <- jfield_of jmodel "model" c ;; do p <- jfield_of jparams "params" c ;;
   do rows <- jfield_of jlist "rows" c ;;
   let tabs := solve_spec m p in
-  do out <- omap (run_row m p tabs) rows ;;
+  let targets := match jfield_of (jlist_of jstr) "targets" c with Some l => l | None => [] end in
+  do out <- omap (run_row m p tabs targets) rows ;;
   Some (JList out).
